@@ -47,11 +47,12 @@ Record wf_model (p : program) : Prop := {
                  is_mexec_kind (nkind d) = true -> (rank d < rank n)%nat;
 }.
 
-(** histories in scope: input sessions without refresh, queries, restarts *)
+(** histories in scope: input sessions without refresh, queries (not of external inputs), restarts *)
 Definition op_in_scope (o : op) : Prop :=
   match o with
   | OSession _ refresh => refresh = false
-  | OQuery _ | ORestart => True
+  | OQuery n => nkind n <> KExternal
+  | ORestart => True
   | OSetWorld _ _ => False
   end.
 
